@@ -986,6 +986,100 @@ fn c13_tick_inside_notify(rng: &mut Rng, id: String, rep: &mut Report) {
     w.shutdown();
 }
 
+/// two matchers in one process: matcher Y's run has taken its decision and notified but still holds its lock, an unrelated
+/// matcher X starts and finishes a run of its own, then Y is ticked with timeout 0 - the promise of that tick concerns Y alone
+fn c13_two_matchers(rng: &mut Rng, id: String, rep: &mut Report) {
+    reset_ctl(true);
+    let y_notified = Arc::new(AtomicU64::new(0));
+    let yn = y_notified.clone();
+    let notify_y: Arc<dyn Fn() + Sync + Send> = Arc::new(move || {
+        record_event(EvKind::Notify);
+        yn.fetch_add(1, Ordering::SeqCst);
+    });
+    // X's notifications are not recorded as events: they are not Y's
+    let notify_x: Arc<dyn Fn() + Sync + Send> = Arc::new(|| ());
+    let (ty, tx) = (*rng.pick(&[1usize, 2]), *rng.pick(&[1usize, 2]));
+    let mut y = World::new(format!("{id}/y"), rng, ty, 1, Some(notify_y));
+    let mut x = World::new(format!("{id}/x"), rng, tx, 1, Some(notify_x));
+    if rng.coin() {
+        y.edit(0, "o");
+    }
+    let ky = y.new_injector();
+    let n = rng.range(1, 200);
+    let first = y.alloc_ids(n as u32);
+    inject(&y.handles[ky].inj, &y.reg, 0, first, n, true, &y.invoked, &y.completed);
+    wait_no_run_pending(2000);
+    // Y's run is held right after its notification decision (it still holds the worker lock)
+    pause_at(Point::RunAfterNotify);
+    let st0 = y.n().tick(0);
+    let held = wait_paused(0, 1500);
+    if !held {
+        cancel_pause(0);
+    }
+    // the unrelated matcher starts a run meanwhile: it either runs to completion or is still at its entry when Y is ticked
+    let kx = x.new_injector();
+    let first = x.alloc_ids(5);
+    inject(&x.handles[kx].inj, &x.reg, 0, first, 5, true, &x.invoked, &x.completed);
+    let x_held = rng.chance(2, 3);
+    if x_held {
+        pause_second_run_at(Point::RunEntry);
+    }
+    let before = hits(Point::RunReturn);
+    let stx = x.n().tick(0);
+    if x_held {
+        if !wait_paused(2, 1500) {
+            cancel_pause(2);
+        }
+    } else if stx.running {
+        wait_hit(Point::RunReturn, before, 2000);
+    }
+    std::thread::sleep(Duration::from_millis(1));
+    let notified_before = y_notified.load(Ordering::SeqCst);
+    // the tick on Y blocks on Y's worker lock if Y's run already decided: let the run go shortly after
+    let delay = Duration::from_micros(500 + rng.below(20_000) as u64);
+    let releaser = std::thread::spawn(move || {
+        std::thread::sleep(delay);
+        release(0);
+    });
+    let begin = record_event(EvKind::TickBegin);
+    let st = y.n().tick(0);
+    record_event(EvKind::TickEnd { changed: st.changed, running: st.running });
+    let _ = releaser.join();
+    release(2);
+    rep.count(&format!("c13.two-matchers.first-running={}.held={held}.other-run-held={x_held}.running={}", st0.running, st.running));
+    let ok = wait_no_run_pending(3000) || y.runs_finished_barrier(3000);
+    std::thread::sleep(Duration::from_millis(2));
+    if !ok {
+        rep.count("c13.runs-still-pending(inconclusive)");
+    } else if held {
+        rep.count("c13.schedules-judged");
+        rep.count("c13.ticks-on-one-matcher-while-another-ran");
+        let notified_after = y_notified.load(Ordering::SeqCst) > notified_before;
+        if st.running && !notified_after {
+            let events = with_ctl(|c| c.events.clone());
+            let tail: Vec<J> = events.iter().rev().take(30).rev().map(|(s, k)| J::Str(format!("{s}: {k:?}"))).collect();
+            rep.violation(
+                "C13",
+                "lost-wake-up",
+                "two matchers in one process".into(),
+                jobj! {"problem" => "matcher Y's tick returned running=true after an unrelated matcher X had run; every run has returned and Y's notify was not called after that tick began",
+                       "case_id" => id, "tick_begin_stamp" => begin, "events_tail" => J::Arr(tail)},
+            );
+        }
+    }
+    for w in [&mut x, &mut y] {
+        while !w.handles.is_empty() {
+            w.drop_injector(0);
+        }
+        let mut g = 0;
+        while w.n().tick(50).running && g < 100 {
+            g += 1;
+        }
+    }
+    x.shutdown();
+    y.shutdown();
+}
+
 /// every push / extend calls notify after the new items are visible
 fn c13_injector_clause(rng: &mut Rng, id: String, rep: &mut Report) {
     thread_local! {
@@ -1211,9 +1305,10 @@ pub fn run_c13(opts: &Opts, rep: &mut Report) {
                 let empty = (idx % 20) >= 9;
                 c13_schedule(order, empty, &mut rng, id, rep);
             }
-            18 if (idx / 20) % 4 == 0 => c13_injector_clause(&mut rng, id, rep),
-            18 if (idx / 20) % 4 == 1 => c13_update_config(&mut rng, id, rep),
-            18 if (idx / 20) % 4 == 2 => c13_tick_inside_notify(&mut rng, id, rep),
+            18 if (idx / 20) % 5 == 0 => c13_injector_clause(&mut rng, id, rep),
+            18 if (idx / 20) % 5 == 1 => c13_update_config(&mut rng, id, rep),
+            18 if (idx / 20) % 5 == 2 => c13_tick_inside_notify(&mut rng, id, rep),
+            18 if (idx / 20) % 5 == 3 => c13_two_matchers(&mut rng, id, rep),
             18 => c13_same_count(&mut rng, id, rep),
             _ => {
                 set_delays(true);
@@ -1224,7 +1319,7 @@ pub fn run_c13(opts: &Opts, rep: &mut Report) {
         rep.count("histories");
         rep.distinct(mix(&[opts.seed, opts.shard, idx]));
         if rep.want_sample() && idx % 7 == 0 {
-            rep.sample(jobj! {"kind" => if idx % 20 < 18 { format!("directed ordering [{}] empty_pattern={}", ORDERINGS[((idx / 20 * 18 + idx % 20) % 11) as usize], (idx % 20) >= 9) } else if idx % 20 == 18 { ["injector clause", "update_config while a run is held", "tick inside the notify callback", "same match count"][((idx / 20) % 4) as usize].to_string() } else { "event loop with delays".to_string() }});
+            rep.sample(jobj! {"kind" => if idx % 20 < 18 { format!("directed ordering [{}] empty_pattern={}", ORDERINGS[((idx / 20 * 18 + idx % 20) % 11) as usize], (idx % 20) >= 9) } else if idx % 20 == 18 { ["injector clause", "update_config while a run is held", "tick inside the notify callback", "two matchers", "same match count"][((idx / 20) % 5) as usize].to_string() } else { "event loop with delays".to_string() }});
         }
         let timeouts = with_ctl(|c| std::mem::take(&mut c.pause_timeouts));
         rep.add("pause-timeouts", timeouts);
